@@ -38,6 +38,10 @@ def include_generic_rules(cx, rep, needles):
     check_members(cx, sub, facts, needles)
     from .c14 import include_merge
     include_merge(cx, sub)
+    from .dispatch import check_shape_dispatch
+    check_shape_dispatch(cx, sub, needles)
+    from .dispatch import check_output_append
+    check_output_append(cx, sub, needles)
     for t_, sh_, fn_ in cx.shape_handlers():
         if any(x in fn_.qname for x in needles):
             c11.check_handler(cx, fn_, t_, sh_, sub, facts)
